@@ -889,6 +889,8 @@ async fn fail_all_pending(inner: &std::sync::Weak<WebSocketClientInner>, err: Re
         let mut pending = lock_pending_map(&inner_ref.pending);
         pending.drain().collect::<Vec<_>>()
     };
+    #[cfg(feature = "verif-hooks")]
+    crate::verif::probe_async("cm_fail_drained").await;
 
     for (request_id, sender) in waiters {
         let _ = sender.send(Err(clone_fatal_error_for_waiter(&err, request_id)));
